@@ -1855,6 +1855,7 @@ Grammar* SGXMLScanner::loadGrammar(const   InputSource& src
         // Reset some status flags
         fInException = false;
         fStandalone = false;
+        fXMLVersion = XMLReader::XMLV1_0;
         fErrorCount = 0;
         fHasNoDTD = true;
         fSeeXsi = false;
@@ -3126,6 +3127,7 @@ void SGXMLScanner::scanReset(const InputSource& src)
     // Reset some status flags
     fInException = false;
     fStandalone = false;
+    fXMLVersion = XMLReader::XMLV1_0;
     fErrorCount = 0;
     fHasNoDTD = true;
     fSeeXsi = false;
